@@ -523,15 +523,37 @@ def gen_filters(rng, store, req):
 
 
 # ---------------------------------------------------------------------------------------------- running Locate
+WIRE = {'roundtrip': 0, 'fallback': 0}
+
+
+def _through_the_wire(payload, cls, version):
+    """Encode and decode the payload as TTLV under the request's version (kmip/core/messages/payloads/locate.py);
+    None when this version cannot carry it (e.g. Operation Policy Name under KMIP 2.0)."""
+    from kmip.core import utils
+    kv = enums.KMIPVersion['KMIP_%d_%d' % tuple(version)]
+    try:
+        st = utils.BytearrayStream()
+        payload.write(st, kmip_version=kv)
+        q = cls()
+        q.read(utils.BytearrayStream(st.buffer), kmip_version=kv)
+        return q
+    except Exception:
+        return None
+
+
 def run_locate(store, req, fs, off, mx, version):
-    r = store.eng.request([kdrv.locate([filter_to_attr(f) for f in fs], offset=off, maximum=mx)],
-                          version=tuple(version), user=req[0], groups=req[1])
+    op, payload = kdrv.locate([filter_to_attr(f) for f in fs], offset=off, maximum=mx)
+    wired = _through_the_wire(payload, kdrv.payloads.LocateRequestPayload, version)
+    WIRE['roundtrip' if wired is not None else 'fallback'] += 1
+    r = store.eng.request([(op, wired if wired is not None else payload)], version=tuple(version), user=req[0], groups=req[1])
     if r['error']:
         return {'ids': None, 'reason': 'REQUEST:' + r['error']['reason'], 'message': r['error']['message']}
     it = r['items'][0]
     if not kdrv.ok(it):
         return {'ids': None, 'reason': it['reason'], 'message': it['message']}
-    ids = [str(x) for x in (it['payload'].get('unique_identifiers') or [])]
+    resp = it['raw'].response_payload
+    back = _through_the_wire(resp, kdrv.payloads.LocateResponsePayload, version)
+    ids = [str(x) for x in ((back if back is not None else resp).unique_identifiers or [])]
     return {'ids': ids, 'reason': None, 'message': None}
 
 
@@ -868,6 +890,8 @@ def run(ctx):
                          model_says=ctx.model_output(header, 'model_of_case %s' % cases[i]) if i == bad[0] else None,
                          impl_says=m['observed'])
     shrink_first_violation(ctx)
+    ctx.count('wire.request_roundtrip', WIRE['roundtrip'])
+    ctx.count('wire.request_in_process_only', WIRE['fallback'])
     ctx.cov['trusted_extra'] = [
         'harness/c14.py: store read-back from raw SQL rows (model input), GetAttributes read-back and policy reading (oracle input), printers to Coq terms',
         'hand model coq/theories/Locate/Locate.v of _process_locate and its helpers, tied by the correspondence above on every run; '
